@@ -822,7 +822,13 @@ def operand(draw, G, S, depth, square=False):
         via = draw(st.sampled_from(['list', 'plus']))
         return {'k': 'add', 'ops': opsl, 'via': via, 'tree': _ptree(draw, len(opsl))}
     if kind == 'T':
-        x = operand(draw, G, S, depth - 1, square=True) if square or draw(st.booleans()) else rev_operand(draw, G, S)
+        # (transposes of the iterative-solver inverse are not supported by the library: no lazy CG inverse below a transpose)
+        saved = G.allow_cg
+        G.allow_cg = False
+        try:
+            x = operand(draw, G, S, depth - 1, square=True) if square or draw(st.booleans()) else rev_operand(draw, G, S)
+        finally:
+            G.allow_cg = saved
         return {'k': draw(st.sampled_from(['T', 'T', 'T', 'TG'])), 'op': x}
     if kind == 'chain':
         n = draw(st.integers(2, 3))
